@@ -349,3 +349,17 @@ func isWrapperMethod(fn *ssa.Function) bool {
 	sig := obj.Type().(*types.Signature)
 	return sig.Recv() != nil && recvTypeName(sig.Recv().Type()) == "ConcurrentSwissMap"
 }
+
+// discoveryMetricField: the field of the vBucket discovery that holds its metric record (found by its type).
+func (w *World) discoveryMetricField() string {
+	if dt := w.NamedType("stream", "vBucketDiscovery"); dt != nil {
+		if st, ok := dt.Underlying().(*types.Struct); ok {
+			for i := 0; i < st.NumFields(); i++ {
+				if strings.HasSuffix(st.Field(i).Type().String(), "VBucketDiscoveryMetric") {
+					return st.Field(i).Name()
+				}
+			}
+		}
+	}
+	return "vBucketDiscoveryMetric"
+}
